@@ -471,6 +471,7 @@ struct variant {
     const char *family;  /* clause stem */
     int nontrivial;
     int offset_secs;
+    int zoneless;        /* RFC 822 text without any zone: documented to be read in the process's LOCAL zone */
 };
 
 static size_t rfc_text(char *o, size_t cap, const civil_t *c, int weekday, int two_digit_year, const char *tail) {
@@ -532,6 +533,7 @@ static void var_build(uint64_t v, int64_t T, struct variant *out) {
                 snprintf(tail, sizeof(tail), " %s", desig_tab[d]);
             out->len = rfc_text(out->text, sizeof(out->text), &c, 1, 0, tail);
             out->must_accept = d < NDESIG_NAMED;
+            out->zoneless = desig_tab[d][0] == 0 || (desig_tab[d][0] == ' ' && desig_tab[d][1] == 0);
         } else {
             out->len = iso_text(out->text, sizeof(out->text), &c, base == B_BASIC, 'T', "", desig_tab[d]);
             out->must_accept = d < 2; /* Z and z; UT/UTC/GMT are not ISO 8601 notation: either verdict */
@@ -657,7 +659,11 @@ static void var_eval(uint64_t idx, void *ctx) {
             const char *hint = "";
             if (va.offset_secs && g == va.expect + 2 * (int64_t)va.offset_secs) hint = " [offset applied with the wrong sign]";
             else if (va.offset_secs && g == va.expect + (int64_t)va.offset_secs) hint = " [offset ignored]";
-            if (g != va.expect && g != va.expect_alt) {
+            if (va.zoneless && getenv("V_TZ") && strcmp(getenv("V_TZ"), "UTC") != 0) {
+                /* zone-less RFC 822 input is local time by design (mktime): with the process outside UTC the instant
+                 * depends on the zone and is not judged here */
+                V_COUNT("zoneless_local_time_not_judged", 1);
+            } else if (g != va.expect && g != va.expect_alt) {
                 cl = va.must_accept ? CL("%s-wrong-instant:%s", va.family, base_name[va.base])
                                     : CL("accepted-unnamed-form-wrong-instant:%s:%s", va.family, base_name[va.base]);
                 c19_fail(cl, "%s gives %" PRId64 " (delta %+" PRId64 " s)%s", W(), g, g - va.expect, hint);
